@@ -11,6 +11,7 @@ ID = 'C05'
 LEVEL = 'exploration'
 TIERS = {"quick": 40000, "thorough": 3000000}
 BUDGET = {"quick": 120, "thorough": 1500}
+SYSTEMATIC_CHUNK = 4
 RULE = ('seeded plans: universe descriptor + 1..4 values + codec + stream kind + drop-threshold knob + '
         'deliver/poll/would-block/short-read/close steps, plus per-stream sweeps of every single split '
         'point; a run is non-trivial when at least one injected fault fired or at least one underrun '
@@ -62,6 +63,21 @@ def gen_plan(r, index, tier):
     return pl
 
 
+def _tiny_workload(r, max_len, tries=60):
+    """A workload whose stream has between 2 and max_len octets (generation side; PRNG allowed)."""
+    best, best_len = None, 0
+    w = None
+    for _ in range(tries):
+        w, cfg = common.gen_stream_workload(r, max_values=2, small=True)
+        for cand in (w, dict(w, values=w['values'][:1])):
+            total, _pts = common.stream_shape(cand)
+            if total is not None and 2 <= total <= max_len and total > best_len:
+                best, best_len = cand, total
+        if best_len >= max_len - 1:
+            break
+    return best or w
+
+
 def systematic(tier):
     """Every single split point of a few fixed streams per tier."""
     from simkit import rng
@@ -79,21 +95,100 @@ def systematic(tier):
     m = 16 if tier == 'quick' else 300
     for j in range(m):
         r = rng.rng_for('C05-partitions', rng.verif_seed(), j)
-        w, cfg = common.gen_stream_workload(r, max_values=2, small=True)
+        w = _tiny_workload(r, 11 if tier == 'quick' else 14)
         kind = ['file', 'pipe', 'file'][j % 3]
-        out.append({'check': ID, 'workload': w, 'partitions': True, 'max_len': 9 if tier == 'quick' else 11,
+        out.append({'check': ID, 'workload': w, 'partitions': True, 'max_len': 11 if tier == 'quick' else 14,
                     'close_with_last': bool(j % 2),
                     'config': {'kind': kind, 'threshold': None if kind == 'file' else 8192, 'prewrap': False},
+                    'steps': []})
+    # every placement of empty polls, would-block reads and short reads over every partition of very
+    # short streams: per byte boundary one of {join, split, split + second empty poll, split with a
+    # would-block read while the data is there, split with a short read, short read then empty poll}
+    m2 = 24 if tier == 'quick' else 160
+    for j in range(m2):
+        r = rng.rng_for('C05-fault-partitions', rng.verif_seed(), j)
+        w = _tiny_workload(r, 6 if tier == 'quick' else 8)
+        kind = ['pipe', 'file', 'pipe'][j % 3]
+        out.append({'check': ID, 'workload': w, 'fault_partitions': True, 'max_len': 6 if tier == 'quick' else 8,
+                    'close_with_last': bool((j // 3) % 2),
+                    'config': {'kind': kind, 'threshold': None if kind == 'file' else [8192, 4][(j // 3) % 2],
+                               'prewrap': bool(j % 2) and kind == 'pipe'},
                     'steps': []})
     return out
 
 
+N_BOUNDARY_OPTIONS = 6
+
+
+def fault_partition_steps(total, code, close_with_last):
+    """Explicit step list of one point of the exhaustive fault/partition space: `code` is a
+    base-6 number with one digit per byte boundary."""
+    steps = []
+    size = 1
+    for b in range(total - 1):
+        opt = code % N_BOUNDARY_OPTIONS
+        code //= N_BOUNDARY_OPTIONS
+        if opt == 0:
+            size += 1
+            continue
+        steps.append(['deliver', 0, size])
+        size = 1
+        if opt == 3:
+            steps.append(['arm', 0, 'would_block', 1])
+        elif opt in (4, 5):
+            steps.append(['arm', 0, 'short', 1])
+        steps.append(['poll', 0])
+        if opt in (2, 5):
+            steps.append(['poll', 0])
+    steps.append(['deliver', 0, size])
+    if close_with_last:
+        steps.append(['close', 0])
+    steps += [['poll', 0], ['drain']]
+    return steps
+
+
 def execute(plan):
+    if plan.get('fault_partitions'):
+        return _execute_fault_partitions(plan)
     if plan.get('sweep'):
         return _execute_sweep(plan)
     if plan.get('partitions'):
         return _execute_partitions(plan)
     return _execute_one(plan)
+
+
+def _execute_fault_partitions(plan):
+    try:
+        wl = W.Workload(plan['workload'])
+    except W.Skip as s:
+        return common.skip_result(s.reason)
+    total = len(wl.stream)
+    if total > plan.get('max_len', 7) or total < 2:
+        return common.skip_result('not-short')
+    agg = None
+    n = 0
+    for code in range(N_BOUNDARY_OPTIONS ** (total - 1)):
+        sub = dict(plan)
+        sub.pop('fault_partitions')
+        sub['steps'] = fault_partition_steps(total, code, plan.get('close_with_last'))
+        res = _execute_one(sub, wl)
+        n += 1
+        if res['status'] == 'violation':
+            res['detail'] = dict(res['detail'], fault_partition_code=code, explicit_steps=sub['steps'])
+            res['evals'] = n
+            return res
+        if res['status'] == 'skip':
+            return res
+        if agg is None:
+            agg = res
+        else:
+            common.merge_result(agg, res)
+    if agg is None:
+        return common.skip_result('empty-stream')
+    agg['evals'] = n
+    agg['weight'] = n
+    agg['counters']['probe.exhaustive_fault_partitions'] = n
+    return agg
 
 
 def _execute_partitions(plan):
@@ -128,7 +223,7 @@ def _execute_partitions(plan):
         res = _execute_one(sub, wl)
         n += 1
         if res['status'] == 'violation':
-            res['detail'] = dict(res['detail'], partition_mask=mask)
+            res['detail'] = dict(res['detail'], partition_mask=mask, explicit_steps=steps)
             res['evals'] = n
             return res
         if res['status'] == 'skip':
@@ -259,5 +354,15 @@ def _poll(cons, st, state, ref, n, idx, ctr, wl, drained):
                           delivered=st.d, total=len(st.s), closed=state['closed'], drained=drained)
 
 
-def shrink_candidates(plan):
-    return common.stream_shrink_candidates(plan)
+def shrink_candidates(plan, detail=None):
+    if (plan.get('fault_partitions') or plan.get('partitions')) and detail and detail.get('explicit_steps'):
+        # one point of an exhaustive space: continue with its explicit step list
+        c = {k: v for k, v in plan.items() if k not in ('fault_partitions', 'partitions', 'max_len',
+                                                         'close_with_last', 'only_mask')}
+        c['steps'] = detail['explicit_steps']
+        yield c
+        return
+    if plan.get('fault_partitions'):
+        return
+    for c in common.stream_shrink_candidates(plan):
+        yield c
